@@ -31,8 +31,10 @@ def run(tier):
     for kind in ("direct", "count", "analytic"):      # two concurrent Stop calls: each one is a barrier
         for lag in (0, 1, 3, 6):
             scen.append({"kind": kind, "strategy": "expand", "sinks": "fast", "directed": "stoptwice", "ops": lag})
-    for kind in ("late", "slide_idle"):      # watermark far ahead of the window cursor (idle timeout over historic timestamps)
+    for kind in ("late", "slide_idle", "hop_idle"):      # watermark far ahead of the window cursor (idle timeout over historic timestamps); hop: slide > size, rows between two windows
         scen.append({"kind": kind, "strategy": "drop", "sinks": "fast", "directed": "idlestop"})
+    for kind in ("tumbling", "sliding", "hop", "session", "late"):      # ... or the source switches from historic timestamps to real time
+        scen.append({"kind": kind, "strategy": "drop", "sinks": "fast", "directed": "clockjump"})
     for kind in ("boom_direct", "boom_where", "boom_count", "boom_agg", "boom_global", "boom_analytic", "boom_cep"):      # a row that makes a user function panic does not stop later rows
         scen.append({"kind": kind, "strategy": "drop", "sinks": "fast", "directed": "rowpanic"})
     for kind in KINDS:
